@@ -16,6 +16,9 @@ DECIDED = [
     "consecutive pages are contiguous, the window is scanned starting with the oldest element, removal takes the occurrence nearest the consumption end; the delayed set is scanned in ascending score order",
     "R-C15-INMEM: the waiting queue is touched only through put_nowait/get_nowait/qsize/empty (asyncio.Queue FIFO); a rejected message is re-appended itself (no re-routing), "
     "so it precedes later arrivals; the delayed reader takes the earliest due time first",
+    "R-C15-PROMOTE: due delayed messages are promoted before every fetch (in-memory: __update_delayed dominates the first take and recurs in the idle loop; Redis: the delayed set "
+    "is polled before the normal list) - a continuously non-empty waiting queue cannot starve a message whose time has come (rules of C05's POLL, reused)",
+    "R-C15-ELAPSED: a deferred_until that has already passed is not returned as due time, so an immediately deliverable message is queued like any other (C06's first-run rule, reused)",
 ]
 NOT_DECIDED = ["order across histories with concurrent producers/consumers", "RabbitMQ (server-side ordering)", "fairness between priorities (randomised by design)"]
 ASSUMPTIONS = ["Redis LRANGE returns elements left to right, LPUSH/RPUSH add at the left/right end, LREM with negative count scans from the tail", "asyncio.Queue is FIFO for put_nowait/get_nowait"]
@@ -26,7 +29,10 @@ def run(ctx: Ctx) -> None:
     inmem(ctx)
     from .C06 import first_run
 
-    first_run(ctx)  # R-C06-FIRST reused: an elapsed deferred_until must not park an immediately deliverable message among the delayed ones
+    from .C05 import poll
+
+    poll(ctx, "R-C15-PROMOTE")  # due delayed messages are promoted before every fetch: a busy waiting queue cannot starve them
+    first_run(ctx, "R-C15-ELAPSED")  # C06's first-run rule reused: an elapsed deferred_until must not park an immediately deliverable message among the delayed ones
 
 
 def discipline(ctx: Ctx, rule="R-C15-DISCIPLINE") -> None:
